@@ -289,13 +289,25 @@ def run(ctx, only=None, tier=None, fallback=None):
     elif quick:
         chosen = select(structs, nsel, rng)
     else:
-        chosen = list(range(len(structs)))
+        # all valid structures, in a seeded order so that the wall-clock guard below (which should not
+        # trigger: ~25 min measured under load) would leave an unbiased subsample, not a prefix of one kind
+        chosen = [int(i) for i in rng.permutation(len(structs))]
     ctx.cov["exhaustive"] = not quick and only is None
+    budget_s = 27 * 60
+    n_done = 0
     n_deg = n_known = n_short = 0
     max_nerr = max_merr = 0.0
     n_words = n_eval = 0
     featset = set()
+    import time as _time
+
     for cnt, i in enumerate(chosen):
+        if not quick and _time.time() - ctx.t0 > budget_s:
+            ctx.cov["exhaustive"] = False
+            ctx.notes.append("wall-clock guard: %d of %d structures replayed within %d s" % (n_done, len(chosen), budget_s))
+            ctx.log(ctx.notes[-1])
+            break
+        n_done += 1
         s = structs[i]
         words = S.words_upto(s["enabled"], maxword)
         kc = known_class(s)
@@ -334,7 +346,7 @@ def run(ctx, only=None, tier=None, fallback=None):
             ctx.sample({"structure": S.describe(s), "word": [list(g) for g in words[wi]], "events": nev, "normalised_error_of_word": float(res["werr"][wi]), "median_density": res["scale"]})
         if cnt % 20 == 0:
             ctx.log("%d/%d structures, max normalised error so far %.2e" % (cnt + 1, len(chosen), max_nerr))
-    ctx.part("structures", slice_size=out["catalogue"], valid=out["nvalid"], evaluated=len(chosen), degenerate_zero_density=n_deg, known_defect_class=n_known, known_class_replayed_with_single_generators_only=n_short)
+    ctx.part("structures", slice_size=out["catalogue"], valid=out["nvalid"], evaluated=n_done, degenerate_zero_density=n_deg, known_defect_class=n_known, known_class_replayed_with_single_generators_only=n_short)
     ctx.part("scenarios", tlc_states=r.distinct, words_replayed=n_words, events_per_word=nev, density_evaluations=n_eval)
     ctx.cov["parts"]["margin"] = {"max_normalised_density_error_outside_known_class": max_nerr, "max_normalised_mass_error": max_merr, "tolerance_rel": REL, "tolerance_abs": ABS}
     ctx.cov["parts"]["features_covered"] = sorted("%s=%s" % f for f in featset)
@@ -345,7 +357,7 @@ def run(ctx, only=None, tier=None, fallback=None):
         "on single generators are not replayed on longer words), every word on %d phase-space events with generic "
         "rotations/boosts drawn per occurrence; density compared with the untransformed one: |d'-d| <= %g*(max+median)+%g, finite, >= 0; "
         "invariant masses to 1e-8. distinct non-trivial = distinct (structure, non-empty word) pairs on structures whose density is not identically zero"
-        % (thin, out["offset"], maxword, len(chosen), "all" if not quick else "greedy feature cover + seeded fill", nev, REL, ABS)
+        % (thin, out["offset"], maxword, n_done, "all" if not quick else "greedy feature cover + seeded fill", nev, REL, ABS)
     )
     ctx.assume("np.Inf shim (harness/prelude.py); tf_pwa imported from the working tree")
     ctx.assume("events, couplings and generic group elements are sampled (seeded); the discrete domain is a hash-thinned slice of the declared product, other seeds give other slices")
